@@ -53,6 +53,93 @@ Proof.
   rewrite Hfil. destruct (jlookup (field_key f) kv); simpl; [reflexivity | apply andb_true_r].
 Qed.
 
+Lemma keys_in_order_In k : forall l seen,
+  In k (keys_in_order l seen) <-> In k (map n_key l) /\ ~ In k seen.
+Proof.
+  induction l as [|n r IH]; intros seen; simpl; [tauto|].
+  destruct (mem (n_key n) seen) eqn:M.
+  - apply mem_In in M. rewrite IH. split.
+    + intros [H1 H2]. auto.
+    + intros [[E | H1] H2]; [subst k; contradiction | auto].
+  - apply mem_false_In in M. simpl. rewrite IH. simpl. split.
+    + intros [E | [H1 H2]]; [subst k; auto | split; [auto | intro; apply H2; auto]].
+    + intros [[E | H1] H2]; [left; exact E|].
+      destruct (string_dec (n_key n) k) as [E | E]; [left; exact E | right].
+      split; [exact H1 | intros [E' | H3]; [contradiction | contradiction]].
+Qed.
+
+(* a key that occurs once: its node is alone in the filter *)
+Lemma filter_count_single (nodes : list cnode) n :
+  count_key (n_key n) (map n_key nodes) = 1 -> In n nodes ->
+  filter (fun m => String.eqb (n_key m) (n_key n)) nodes = [n].
+Proof.
+  unfold count_key. induction nodes as [|m r IH]; intros Hc Hin; [contradiction|].
+  simpl in Hc |- *. destruct Hin as [E | Hin].
+  - subst m. rewrite String.eqb_refl in Hc |- *. simpl in Hc. f_equal.
+    assert (Hz : List.length (filter (String.eqb (n_key n)) (map n_key r)) = 0) by lia.
+    clear - Hz. induction r as [|x r IHr]; [reflexivity|]. simpl in Hz |- *.
+    rewrite (String.eqb_sym (n_key x)). destruct (String.eqb (n_key n) (n_key x)); [discriminate Hz | apply IHr, Hz].
+  - rewrite (String.eqb_sym (n_key m)). destruct (String.eqb (n_key n) (n_key m)) eqn:E.
+    + simpl in Hc. exfalso.
+      assert (Hpos : List.length (filter (String.eqb (n_key n)) (map n_key r)) >= 1).
+      { clear - Hin. induction r as [|x r IHr]; [contradiction|]. simpl. destruct Hin as [E | Hin].
+        - subst x. rewrite String.eqb_refl. simpl. lia.
+        - destruct (String.eqb (n_key n) (n_key x)); simpl; [lia | apply IHr, Hin]. }
+      lia.
+    + apply IH; auto.
+Qed.
+
+Lemma conf_obj_flat_dup rec S tn fns kv :
+  dup_ok fns = true ->
+  conf_obj_gen false rec S tn (Some (map (node_of_fnode false) fns)) kv = true ->
+  (forall p, In p kv -> In (fst p) (map field_key fns)) /\ forallb (key_spec rec S tn kv) fns = true.
+Proof.
+  intros Hd H. unfold conf_obj_gen in H.
+  set (nodes := map (node_of_fnode false) fns) in *.
+  assert (Hk : map n_key nodes = map field_key fns) by (unfold nodes; rewrite map_map; reflexivity).
+  simpl orb in H. apply andb_true_iff in H as [H1 H2]. rewrite forallb_forall in H1, H2.
+  split.
+  - intros p Hp. specialize (H1 p Hp). apply mem_In in H1. apply keys_in_order_In in H1.
+    destruct H1 as [H1 _]. rewrite <- Hk. exact H1.
+  - apply forallb_forall. intros f Hf.
+    assert (Hin : In (node_of_fnode false f) nodes) by (unfold nodes; apply in_map, Hf).
+    assert (Hkey : In (field_key f) (keys_in_order nodes [])).
+    { apply keys_in_order_In. split; [| intros []]. rewrite Hk. apply in_map, Hf. }
+    specialize (H2 _ Hkey). unfold conf_key in H2. unfold key_spec.
+    set (ns := filter (fun n => String.eqb (n_key n) (field_key f)) nodes) in *.
+    assert (Hfns : In (node_of_fnode false f) ns).
+    { unfold ns. apply filter_In. split; [exact Hin | apply String.eqb_refl]. }
+    unfold dup_ok in Hd. rewrite forallb_forall in Hd.
+    destruct (Nat.eqb (count_key (field_key f) (map field_key fns)) 1) eqn:Ec.
+    + apply Nat.eqb_eq in Ec. rewrite <- Hk in Ec.
+      assert (Ens : ns = [node_of_fnode false f]) by (apply (filter_count_single nodes (node_of_fnode false f)); auto).
+      rewrite Ens in H2. destruct (jlookup (field_key f) kv); simpl in H2 |- *; [exact H2|].
+      rewrite andb_true_r in H2. exact H2.
+    + pose proof (Hd f Hf) as Hdf. rewrite Ec in Hdf. simpl in Hdf. apply andb_true_iff in Hdf as [Hleaf Hsame].
+      rewrite forallb_forall in Hsame.
+      (* every node of this key is a leaf selection of the same field *)
+      assert (Hall : forall n, In n ns -> n_name n = fn_name f /\ n_sub n = None).
+      { intros n Hn. unfold ns in Hn. apply filter_In in Hn. destruct Hn as [Hn Hkn].
+        unfold nodes in Hn. apply in_map_iff in Hn. destruct Hn as [g [Eg Hg]]. subst n.
+        cbn [n_key n_name n_sub node_of_fnode] in *. apply String.eqb_eq in Hkn.
+        split.
+        - pose proof (Hsame g Hg) as Hs. rewrite Hkn, String.eqb_refl in Hs. simpl in Hs.
+          apply String.eqb_eq, Hs.
+        - pose proof (Hd g Hg) as Hdg. rewrite Hkn, Ec in Hdg. simpl in Hdg.
+          apply andb_true_iff in Hdg as [Hl _]. unfold is_leaf_sel in Hl. destruct (fn_sub g); [discriminate | reflexivity]. }
+      assert (Hss : sub_scopes ns = []).
+      { unfold sub_scopes. generalize (negb match ns with [_] => true | _ => false end). intro b0.
+        clear - Hall. induction ns as [|n r IH]; [reflexivity|]. simpl.
+        rewrite (proj2 (Hall n (or_introl eq_refl))). simpl. apply IH. intros m Hm. apply Hall. right; exact Hm. }
+      assert (Hs1 : sub_scopes [node_of_fnode false f] = []).
+      { unfold sub_scopes. simpl. unfold is_leaf_sel in Hleaf. destruct (fn_sub f); [discriminate | reflexivity]. }
+      destruct (jlookup (field_key f) kv) as [v|].
+      * destruct ns as [|n0 rest] eqn:Ens; [contradiction|].
+        destruct (Hall n0 (or_introl eq_refl)) as [En0 _]. rewrite En0 in H2.
+        rewrite Hss in H2. rewrite Hs1. exact H2.
+      * rewrite forallb_forall in H2. apply (H2 _ Hfns).
+Qed.
+
 Definition obj_conf (fc : nat) (S : schema) (frs : list fragdef) (tn : string) (sels : list sel)
            (kv : list (string * json)) : bool :=
   conf_obj_with (conf_val fc S frs) S tn (collect_scopes fc S frs tn [(false, sels)]) kv.
@@ -77,7 +164,7 @@ Definition obj_conf (fc : nat) (S : schema) (frs : list fragdef) (tn : string) (
 Lemma sels_ok_inv g cov C S frs mx abs rt r sels :
   sels_ok g cov C S frs mx abs rt r sels = true ->
   exists g' fns, g = Datatypes.S g' /\ flatten g' S frs rt r sels = Some fns /\
-             keys_ok C (map field_key fns) = true /\
+             keys_okG cov C fns = true /\
              (cov = true -> NoDup (map (fun f => py_field_name C (field_key f)) fns)) /\
              forallb (field_ok (sels_ok g' cov C S frs mx) g' cov S mx abs rt r) fns = true.
 Proof.
@@ -92,33 +179,32 @@ Proof. unfold keys_ok. intro H. apply andb_true_iff in H as [H _]. apply nodupb_
 
 Lemma obj_conf_inv fc S frs tn sels kv C g r fns :
   obj_conf fc S frs tn sels kv = true -> flatten g S frs tn r sels = Some fns ->
-  keys_ok C (map field_key fns) = true ->
+  keys_okD C fns = true ->
   (forall p, In p kv -> In (fst p) (map field_key fns)) /\
   forallb (key_spec (conf_val fc S frs) S tn kv) fns = true.
 Proof.
   unfold obj_conf, conf_obj_with. intros H Hfl Hk.
   destruct (collect_scopes fc S frs tn [(false, sels)]) as [l|] eqn:E; [| discriminate H].
   rewrite (collect_scopes_flat _ _ _ _ _ _ _ _ _ Hfl E) in H.
-  rewrite conf_obj_flat in H by (eapply keys_ok_nodup; eauto).
-  simpl in H. apply andb_true_iff in H as [H1 H2]. split; [| exact H2].
-  intros p Hp. rewrite forallb_forall in H1. apply mem_In, H1, Hp.
+  unfold keys_okD in Hk. apply andb_true_iff in Hk as [Hd _].
+  apply (conf_obj_flat_dup _ _ _ _ _ Hd H).
 Qed.
 
 Lemma sels_ok_ok_inv g cov C S frs mx : forall b rt r sels,
   sels_ok g cov C S frs mx b rt r sels = true -> no_spread g sels = true ->
-  exists g' fns, flatten g' S frs rt r sels = Some fns /\ keys_ok C (map field_key fns) = true /\
+  exists g' fns, flatten g' S frs rt r sels = Some fns /\ keys_okD C fns = true /\
                  (cov = true -> NoDup (map (fun f => py_field_name C (field_key f)) fns)).
 Proof.
   intros b rt r sels H _. destruct (sels_ok_inv _ _ _ _ _ _ _ _ _ _ H) as [g' [fns [_ [H1 [H2 [H3 _]]]]]].
-  exists g', fns. auto.
+  exists g', fns. split; [exact H1|]. split; [eapply keys_okG_D; eauto | exact H3].
 Qed.
 
 Lemma keys_ok_forall C (fns : list fnode) :
-  keys_ok C (map field_key fns) = true ->
+  keys_okD C fns = true ->
   forall f, In f fns -> String.eqb (py_field_name C (field_key f)) (field_key f)
                         || negb (mem (py_field_name C (field_key f)) (map field_key fns)) = true.
 Proof.
-  unfold keys_ok. intros H f Hf. apply andb_true_iff in H as [_ H]. rewrite forallb_forall in H.
+  unfold keys_okD. intros H f Hf. apply andb_true_iff in H as [_ H]. rewrite forallb_forall in H.
   apply (H (field_key f)). apply in_map, Hf.
 Qed.
 
@@ -140,7 +226,7 @@ Section Level.
   Variable harm : list string -> Prop.
   Hypothesis harm_mx : forall eb, forallb (fun b => mem b mx) eb = true -> harm eb.
   Hypothesis ok_inv : forall b rt r sels, ok b rt r sels = true -> no_spread g sels = true ->
-      exists g' fns, flatten g' S frs rt r sels = Some fns /\ keys_ok C (map field_key fns) = true /\
+      exists g' fns, flatten g' S frs rt r sels = Some fns /\ keys_okD C fns = true /\
                      (cov = true -> NoDup (map (fun f => py_field_name C (field_key f)) fns)).
   Hypothesis W_opt : forall a j, W (AOpt a) j = is_null j || W a j.
   Hypothesis W_list : forall a j, W (AList a) j = match j with JArr l => forallb (W a) l | _ => false end.
@@ -556,6 +642,7 @@ Proof.
   destruct (sels_ok_inv _ _ _ _ _ _ _ _ _ _ Hok) as [g'' [fns' [Eg' [Hfl' [Hkeys [_ Hfields]]]]]].
   rewrite Eg in Eg'. inversion Eg'; subst g''. clear Eg'.
   rewrite Hfl in Hfl'. inversion Hfl'; subst fns'. clear Hfl'.
+  apply keys_okG_D in Hkeys.
   destruct (obj_conf_inv _ _ _ _ _ _ C _ _ _ Hc Hfl Hkeys) as [Hkv Hspec].
   destruct n as [|[|[|[|n3]]]]; try lia.
   set (n1 := Datatypes.S (Datatypes.S n3)). set (n' := Datatypes.S n1).
@@ -621,7 +708,8 @@ Proof.
   destruct (sels_ok_inv _ _ _ _ _ _ _ _ _ _ Hok) as [g'' [fns' [Eg' [Hfl' [Hkeys [Hnames Hfields]]]]]].
   rewrite Eg in Eg'. inversion Eg'; subst g''. clear Eg'.
   rewrite Hfl in Hfl'. inversion Hfl'; subst fns'. clear Hfl'.
-  destruct (obj_conf_inv _ _ _ _ _ _ C _ _ _ Hc Hfl Hkeys) as [Hkv Hspec].
+  cbn [keys_okG] in Hkeys. pose proof (keys_ok_D _ _ Hkeys) as HkeysD.
+  destruct (obj_conf_inv _ _ _ _ _ _ C _ _ _ Hc Hfl HkeysD) as [Hkv Hspec].
   destruct n as [|[|[|[|n3]]]]; try lia.
   set (n1 := Datatypes.S (Datatypes.S n3)). set (n' := Datatypes.S n1).
   assert (Hc0 : In {| c_name := cn; c_bases := "BaseModel" :: eb; c_fields := pfl |} out)
@@ -647,7 +735,7 @@ Proof.
       eapply IH; eauto.
       * right. eauto.
       * unfold n1. lia.
-    + apply keys_ok_forall, Hkeys.
+    + apply keys_ok_forall, HkeysD.
     + eapply table_ok_incl; [exact Htab|]. rewrite Hout. apply incl_tl, incl_refl.
   - eapply keys_ok_nodup; eauto.
   - apply nodupb_NoDup, Hnd.
